@@ -202,6 +202,9 @@ pub enum JunkKind {
     ForeignEchoReply(u16),
     /// Quotation with another destination address (UDP/TCP).
     ForeignTarget,
+    /// As `ForeignTarget`, but the ICMP error is sent by this tracer's own target (the target is a
+    /// router on the path to the sibling's target and reports the sibling's expired probe).
+    ForeignTargetViaTarget,
     /// Quotation with another fixed port (UDP/TCP).
     ForeignPort,
     /// Both ports pinned: only the *second* pinned port (destination) differs.
@@ -226,6 +229,7 @@ pub struct ForgePlan {
     flip: Option<usize>,
     echo_reply: Option<u16>,
     from_target: bool,
+    via_target: bool,
 }
 
 #[derive(Debug, Clone)]
@@ -1007,11 +1011,12 @@ impl World {
                 }
                 plan.edits.push((l4 + 4, 0));
             }
-            JunkKind::ForeignTarget => {
+            JunkKind::ForeignTarget | JunkKind::ForeignTargetViaTarget => {
                 if self.cfg.proto == Proto::Icmp {
                     return None;
                 }
                 plan.flip = Some(if v6 { 39 } else { 19 });
+                plan.via_target = kind == JunkKind::ForeignTargetViaTarget;
             }
             JunkKind::ForeignPort => {
                 if self.cfg.proto == Proto::Icmp {
@@ -1138,7 +1143,7 @@ impl World {
             s.wire[off] ^= 0x01;
         }
         // answered by the first hop (Time Exceeded), quoting in full so every field is visible
-        let from = self.cfg.topo.hops.first().map_or(self.cfg.dst, |h| h.addr);
+        let from = if plan.via_target { self.cfg.dst } else { self.cfg.topo.hops.first().map_or(self.cfg.dst, |h| h.addr) };
         let (q, _) = self.quoted(&s, 0, None, Quote::Full);
         let icmp = self.icmp_error(from, true, 0, &q, None);
         (self.wrap_icmp(from, icmp, 0), from)
